@@ -140,6 +140,9 @@ F = [
   "Exp reported Overflow for arguments a hair above a multiple of 23 (the working precision was derived from |x| rounded to a float64): Exp(3611.0000000000000000001) P=41 Emax=100000 returned Infinity",
   {"C12": [ar("exp", ctx(41, 100000, -100000, "down"), dec("36110000000000000000001", -19)), ar("exp", ctx(41, 100000, -100000, "down"), dec("98900000000000004", -14)),
            ar("exp", ctx(5, 1000, -1000, "half_even"), dec("11500000000000000000001", -20))]}),
+ ("D51", "Ln's guard digits grow with the length of the precision",
+  "Ln worked with two guard digits at every precision; its power series near 1 takes about as many terms as the precision has digits and their rounding errors add up to more than a tenth of an ulp at precisions in the thousands: Ln(0.5) at Precision 2045 under Round05Up, and Ln(0.9) at Precision 2052 under RoundDown, were more than 1.1 ulp from the true value (found by C12's thorough tier once the high-precision class was drawn twice as often)",
+  {"C12": [ar("ln", ctx(2045, 10000, -10000, "05up"), dec(5, -1)), ar("ln", ctx(2052, 10000, -10000, "down"), dec(9, -1))]}),
  ("D50", "Exp of an argument whose square is below the working precision is 1 + x",
   "Exp failed with 'exponent out of range' for tiny arguments at precisions beyond about 50000, where the terms of its series (numbers of Precision digits around the size of x) have exponents below the package's MinExponent although the result is 1 + x: Exp(-7E-50001) at Precision 50001, Exp(1E-60000) at Precision 60005 (found by hand while extending C12's near-one classes to precisions around the size of the difference; C12 now draws that class for Exp too)",
   {"C12": [ar("exp", ctx(50001, 1000, -1000, "floor"), dec(7, -50001, True)), ar("exp", ctx(60005, 100000, -100000, "half_even"), dec(1, -60000))]}),
